@@ -7,7 +7,7 @@ expander (save stack); the generator only has to keep the program valid."""
 from .conds import alpha
 
 ALIAS_NAMES = ['zqla', 'zqlb', 'zqlc']
-SCOPES = ['{', '{', 'begingroup', 'center', 'quote', 'itemize', 'math', 'mathparen', 'tabular', 'textbf', 'mbox', 'emph', 'unknownenv']
+SCOPES = ['{', '{', 'begingroup', 'center', 'quote', 'itemize', 'math', 'mathparen', 'tabular', 'textbf', 'mbox', 'emph', 'unknownenv', 'cmdenv', 'newenv']
 
 
 class ScopeGen(object):
@@ -139,6 +139,11 @@ class ScopeGen(object):
             # an environment no package defines (plasTeX tolerates it and treats it as a group), in text and in mathematics
             nm = r.choice(['zqunk', 'zqunk', 'zqother'])
             s = '\\begin{%s}' % nm + self.block(depth, in_math) + '\\end{%s}' % nm
+        elif kind == 'cmdenv':
+            # a \\newcommand used in environment form (\\endzqce is not defined: LaTeX takes it for \\relax)
+            s = '\\begin{zqce}' + self.block(depth) + '\\end{zqce}'
+        elif kind == 'newenv':
+            s = '\\begin{zqne}' + self.block(depth) + '\\end{zqne}'
         elif kind in ('center', 'quote'):
             s = '\\begin{%s}' % kind + self.block(depth) + '\\end{%s}' % kind
         elif kind == 'itemize':
@@ -174,6 +179,7 @@ class ScopeGen(object):
 
     def program(self):
         pre = ('\\makeatletter\\gdef\\zq@p{AT}\\makeatother\\def\\zq{NOAT}\\newif\\ifzqsw \\newcounter{zqcnt}')
+        pre += '\\newcommand{\\zqce}{Ce}\\newenvironment{zqne}{[}{]}'
         self.vis[0]['zqa'] = True
         pre += '\\def\\zqa{%s}' % self.mark()
         body = self.block(0) + self.scope(1) + self.block(0) + self.probe()
